@@ -335,6 +335,13 @@ class QualitativeDiscretizer(BaseDiscretizer):
                 UserWarning,
             )
 
+            # values ranked by the user for the ordinal features about to be converted
+            ranked_values = {
+                feature: self.values_orders[feature].values()
+                for feature in self.ordinal_features
+                if feature in features_to_convert
+            }
+
             # converting specified features into qualitative features
             string_discretizer = StringDiscretizer(
                 qualitative_features=features_to_convert,
@@ -346,6 +353,18 @@ class QualitativeDiscretizer(BaseDiscretizer):
 
             # updating values_orders accordingly
             self.values_orders.update(string_discretizer.values_orders)
+
+            # checking that the conversion did not add unranked values to an ordinal feature
+            for feature, ranked in ranked_values.items():
+                unexpected = [
+                    value
+                    for value in self.values_orders[feature]
+                    if value not in ranked and value != self.str_nan
+                ]
+                assert len(unexpected) == 0, (
+                    " - [Discretizer] Unexpected value! The ordering for values: "
+                    f"{str(list(unexpected))} of feature '{feature}' was not provided."
+                )
 
         # adding known nans at training
         for feature in self.features:
